@@ -387,5 +387,6 @@ Proof.
   exists doc_rr_filter, cfg_rr_filter.
   destruct refuted_witness as [H1 [H2 [_ [_ [c2 [H3 [H4 _]]]]]]].
   split; [exact H1|]. split; [exact H2|].
-  rewrite H3. intro He. inversion He. subst c2. rewrite node_eqb_refl in H4. discriminate.
+  rewrite H3. clear H1 H2 H3. intro He. injection He as Heq. rewrite Heq in H4.
+  rewrite node_eqb_refl in H4. discriminate H4.
 Qed.
